@@ -121,6 +121,16 @@ theorem inplace_decoder_reads_the_text (lossy : Bool) (t : Buf) (i : Nat) (hi : 
   | fault => exact h
   | fuel => exact h
 
+/-- **the decoding of a literal does not depend on what follows it** (the property's words): a literal that the specification
+    reads in `b ++ suf` and that ends inside `b` is read the same — same decoded text, same end — in `b ++ suf'` for every
+    other continuation `suf'`, and in `b` alone (`Lemmas/StrPad.lean`: `stringS_prefix` / `stringS_extend`; the low-surrogate
+    look-ahead of a lossy decoder included) -/
+theorem literal_does_not_depend_on_what_follows (lossy : Bool) (b suf suf' : Buf) (i : Nat) (r : List UInt8 × Nat)
+    (h : Spec.stringS lossy (b ++ suf) i = some r) (hr : r.2 ≤ b.size) :
+    Spec.stringS lossy b i = some r ∧ Spec.stringS lossy (b ++ suf') i = some r := by
+  have h1 := StrPad.stringS_prefix lossy b suf _ i r rfl h hr
+  exact ⟨h1, StrPad.stringS_extend lossy b suf' _ i r rfl h1⟩
+
 /-- **… and after any earlier decodings in the same buffer** (the whole-input DOM parse decodes every string and member name
     of the document in place, one after the other, in ONE buffer): let `mem0` be any buffer of the size of the padded copy
     that still equals it from `i` on — which is what every earlier run leaves behind, by the last clause of this very
